@@ -1,8 +1,6 @@
 // ---------------------------------------------------------------------------------------------
 // C10: what the read-only accessors of the lossless relations API expose, as functions of the tree.
 // ---------------------------------------------------------------------------------------------
-pub type SyntaxNode = rowan::SyntaxNode;
-pub type SyntaxElement = rowan::SyntaxElement;
 
 pub open spec fn kind_filter(ts: Seq<Tree>, k: SyntaxKind) -> Seq<Tree>
     decreases ts.len()
@@ -39,49 +37,6 @@ pub open spec fn t_archqual(rel: Tree) -> Option<Seq<char>> {
     }
 }
 
-pub open spec fn entries_are(hs: Seq<Entry>, ts: Seq<Tree>) -> bool {
-    hs.len() == ts.len() && forall|i: int| 0 <= i < hs.len() ==> (#[trigger] hs[i]).0.tree() == ts[i]
-}
-pub open spec fn relations_are(hs: Seq<Relation>, ts: Seq<Tree>) -> bool {
-    hs.len() == ts.len() && forall|i: int| 0 <= i < hs.len() ==> (#[trigger] hs[i]).0.tree() == ts[i]
-}
-pub open spec fn nodes_are(hs: Seq<SyntaxNode>, ts: Seq<Tree>) -> bool {
-    hs.len() == ts.len() && forall|i: int| 0 <= i < hs.len() ==> (#[trigger] hs[i]).tree() == ts[i]
-}
-pub proof fn lemma_cast_entries(nodes: Seq<SyntaxNode>, a: Seq<Option<Entry>>, cn: Seq<Tree>)
-    requires
-        nodes_are(nodes, cn), a.len() == nodes.len(),
-        forall|i: int| 0 <= i < nodes.len() ==> (rowan::tree_kind(cn[i]) == ENTRY ==> #[trigger] a[i] is Some && a[i]->Some_0.0 == nodes[i])
-            && (rowan::tree_kind(cn[i]) != ENTRY ==> a[i] is None),
-    ensures entries_are(somes(a), kind_filter(cn, ENTRY))
-    decreases nodes.len()
-{
-    if nodes.len() > 0 {
-        let n2 = nodes.drop_last(); let a2 = a.drop_last(); let c2 = cn.drop_last();
-        assert forall|i: int| 0 <= i < n2.len() implies (#[trigger] n2[i]).tree() == c2[i] by { assert(n2[i] == nodes[i]); }
-        assert forall|i: int| 0 <= i < n2.len() implies (rowan::tree_kind(c2[i]) == ENTRY ==> #[trigger] a2[i] is Some && a2[i]->Some_0.0 == n2[i])
-            && (rowan::tree_kind(c2[i]) != ENTRY ==> a2[i] is None) by { assert(a2[i] == a[i]); assert(c2[i] == cn[i]); assert(n2[i] == nodes[i]); }
-        lemma_cast_entries(n2, a2, c2);
-        assert(nodes.last().tree() == cn.last());
-    }
-}
-pub proof fn lemma_cast_relations(nodes: Seq<SyntaxNode>, a: Seq<Option<Relation>>, cn: Seq<Tree>)
-    requires
-        nodes_are(nodes, cn), a.len() == nodes.len(),
-        forall|i: int| 0 <= i < nodes.len() ==> (rowan::tree_kind(cn[i]) == RELATION ==> #[trigger] a[i] is Some && a[i]->Some_0.0 == nodes[i])
-            && (rowan::tree_kind(cn[i]) != RELATION ==> a[i] is None),
-    ensures relations_are(somes(a), kind_filter(cn, RELATION))
-    decreases nodes.len()
-{
-    if nodes.len() > 0 {
-        let n2 = nodes.drop_last(); let a2 = a.drop_last(); let c2 = cn.drop_last();
-        assert forall|i: int| 0 <= i < n2.len() implies (#[trigger] n2[i]).tree() == c2[i] by { assert(n2[i] == nodes[i]); }
-        assert forall|i: int| 0 <= i < n2.len() implies (rowan::tree_kind(c2[i]) == RELATION ==> #[trigger] a2[i] is Some && a2[i]->Some_0.0 == n2[i])
-            && (rowan::tree_kind(c2[i]) != RELATION ==> a2[i] is None) by { assert(a2[i] == a[i]); assert(c2[i] == cn[i]); assert(n2[i] == nodes[i]); }
-        lemma_cast_relations(n2, a2, c2);
-        assert(nodes.last().tree() == cn.last());
-    }
-}
 /// the first token of kind k is at index i
 pub proof fn lemma_first_tok_is(ch: Seq<Tree>, k: SyntaxKind, i: int)
     requires 0 <= i < ch.len(), ch[i] is Tok, rowan::tree_kind(ch[i]) == k,
